@@ -69,7 +69,9 @@ var props = map[string]propSpec{
 	}},
 	"C13": {Level: "exploration", Harnesses: []harnessSpec{
 		{Name: "shimurl", Quick: 120, Thorough: 900},
+		{Name: "shim", Quick: 120, Thorough: 600, Args: []string{"-prop", "C13"}},
 	}, Assume: []string{
+		"concurrent opens (pairs and a triple of URLs naming foreign hosts, every interleaving up to the preemption bound, plain-memory access points included) and backends that answer the handshake with a 301/302/303/307/308 redirect to a foreign host, on the in-memory websocket dialler",
 		"the real gorilla dialler computes the address to connect to; only its NetDialContext is replaced (records the address, refuses the connection)",
 		"open-request bodies: every string of length <= 6 (quick) / 7 (thorough) over the alphabet a:/?#@[]%.1\\ plus a structured grammar of 23k URLs and a hand list (64 KiB, control bytes); backend host with and without port",
 	}},
